@@ -87,6 +87,45 @@ Definition is_float_literal (t : list Z) : bool :=
   | [] => false
   end.
 
+(* float_ at the START of a text (as inside complex_): the rest of the text after the longest
+   match.  No shorter match can let the whole complex expression succeed: a fraction or an
+   ordinal cut short is followed by a digit, and a scalar whose exponent matches is followed by
+   e / E, none of which is the sign or the i that must come next. *)
+Definition float_prefix_abs (t : list Z) : option (list Z) :=
+  let (ip, r1) := span_digits t in
+  if int_part_ok ip then
+    match r1 with
+    | c :: r2 =>
+      if c =? 46 then
+        let (fp, r3) := span_digits r2 in
+        if nonempty fp then
+          match r3 with
+          | e :: sg :: r4 =>
+              if ((e =? 69) || (e =? 101)) && is_sign sg then
+                let (ds, r5) := span_digits r4 in
+                if ordinal_ok ds then Some r5 else Some r3
+              else Some r3
+          | _ => Some r3
+          end
+        else None
+      else None
+    | [] => None
+    end
+  else None.
+Definition float_prefix (t : list Z) : option (list Z) := float_prefix_abs (strip_sign t).
+(* complex_ = ( float_ sign_ float_ i ) as a recognizer of the whole text *)
+Definition is_complex_literal (t : list Z) : bool :=
+  match t with
+  | c :: r =>
+      (c =? 40) &&
+      match float_prefix r with
+      | Some (sg :: r') =>
+          is_sign sg && match float_prefix r' with Some rest => list_eqb Z.eqb rest [105; 41] | None => false end
+      | _ => false
+      end
+  | [] => false
+  end.
+
 (* ---------- scanner.go: escape_, rune_, string_ ---------- *)
 (* escape_ = a backslash followed by x and 2, u and 4 or U and 8 characters of base16_, or by one
    of a b f n r t v, the apostrophe, the double quote or the backslash.  [esc_len t]: the text
@@ -338,3 +377,43 @@ Definition is_collection (v : val) : bool :=
 (* the class the round-trip observation of a top-level value is held to *)
 Definition rt_class (maximum : nat) (v : val) : nat :=
   if is_collection v && (nest_depth v <=? maximum)%nat then val_class v else O.
+
+(* ---------- elision-free token lists, and a bound on the length of the text ---------- *)
+Definition is_elision (t : ftoken) : bool := match tk_type t with TElision => true | _ => false end.
+Definition has_elision (ts : list ftoken) : bool := existsb is_elision ts.
+
+Section CostSums.
+Variable c : val -> nat.
+Variable nl : nat.
+Variable ll : val -> nat.
+Fixpoint items_cost (l : list val) : nat :=
+  match l with
+  | [] => O
+  | x :: t => nl + c x + items_cost t
+  end.
+Fixpoint entries_cost (ks vs : list val) {struct vs} : nat :=
+  match vs with
+  | [] => O
+  | x :: t => nl + ll (hd VNil ks) + 2 + c x + entries_cost (tl ks) t
+  end.
+End CostSums.
+
+Section Cost.
+Variable ftext : Z -> list Z.
+Variable printable : Z -> bool.
+Variable maximum : nat.
+(* a newline with its indentation: the indentation never exceeds the limit *)
+Definition nlcost : nat := S (4 * maximum).
+Definition leaf_len (v : val) : nat :=
+  match intrinsic_text ftext printable v with Some t => length t | None => O end.
+(* brackets and "(Type)" (at most 11 runes), "..." / " " / ":" (at most 3), one newline per item
+   and one before the closing bracket, ": " per association *)
+Fixpoint cost (v : val) {struct v} : nat :=
+  match v with
+  | VSeq _ l => 14 + nlcost + items_cost cost nlcost l
+  | VMapping _ ks vs => 14 + nlcost + entries_cost cost nlcost leaf_len ks vs
+  | VAssoc k x => leaf_len k + 2 + cost x
+  | VNilSlice | VNilMap => 14 + nlcost
+  | _ => leaf_len v
+  end.
+End Cost.
